@@ -147,6 +147,27 @@ INFO = {
     "C18-e": (["C18"], "caught as written", None),
     "C19-e": (["C19"], "caught as written", None),
     "C20-e": (["C20"], "missed at first", "fields of implementing objects were never edited on their own; edit `refine-implementation-field` added"),
+    # ---- round 6
+    "C01-f": (["C01"], "missed at first", "mutation `reserved-word-after-string`"),
+    "C02-f": (["C02"], "caught as written", None),
+    "C03-f": (["C03"], "caught as written", None),
+    "C04-f": (["C04"], "caught as written", None),
+    "C05-f": (["C06"], "missed at first", "metamorphic transform `wrap-bare-inline-fragment` (C06); the change makes validation accept invalid documents, which is C06's subject"),
+    "C06-f": (["C06"], "missed at first", "one-element list values are rendered as the bare item half of the time (input coercion of lists)"),
+    "C07-f": (["C07"], "missed at first", "C07 routes `single`: a bare item at a list position, optionally with a variable inside an object item"),
+    "C08-f": (["C08"], "missed at first", "unexpected exceptions now derive from builtin exception classes chosen by path (IndexError, KeyError, ...)"),
+    "C09-f": (["C09", "C08"], "missed at first", "every other resolver error is raised as an instance of a ResolverError subclass"),
+    "C10-f": (["C10"], "caught as written", None),
+    "C11-f": (["C11"], "missed at first", "custom scalars the document does not define, supplied through additional_types only (model: unreferenced supplied types are not part of the schema)"),
+    "C12-f": (["C12"], "missed at first", "SDL-built schemas get directive-only extensions (`extend type O @cd`)"),
+    "C13-f": (["C13"], "missed at first", "implementations narrow interface-typed result types to implementing objects (covariance by named type)"),
+    "C14-f": (["C14"], "missed at first", "visibility predicates sometimes name builtin scalars (which can never be hidden)"),
+    "C15-f": (["C15"], "missed at first", "a sibling schema (same names, rotated enum internals) is introspected first in the same process"),
+    "C16-f": (["C16"], "caught as written", None),
+    "C17-f": (["C17"], "missed at first", "subscription resolver shapes `plain-awaitable` and `plain-loop`; thread off-loading on (harness-owned default executor) for half of the cases"),
+    "C18-f": (["C18"], "caught as written", None),
+    "C19-f": (["C19", "C04", "C05"], "missed by C19 at first (C04 and C05 caught it: shared helper)", "C19's generator puts both directives on one node"),
+    "C20-f": (["C20"], "caught as written", None),
 }
 RAN_C = ("tools/confirm_seed.sh (scratch worktree of /repo HEAD, /repo itself untouched because a background thorough run was using it): "
          "demo.py on the clean tree (exit 0), patch applied, repo test-suite (1895 passed), demo.py with the change (exit 1), "
@@ -154,7 +175,7 @@ RAN_C = ("tools/confirm_seed.sh (scratch worktree of /repo HEAD, /repo itself un
 for sid, (caught, first, strengthening) in sorted(INFO.items()):
     p = os.path.join(HERE, "seeded", sid, "meta.json")
     m = json.load(open(p))
-    m["what_i_ran"] = RAN_C if sid.endswith(("-c", "-d", "-e")) else RAN
+    m["what_i_ran"] = RAN_C if sid.endswith(("-c", "-d", "-e", "-f")) else RAN
     m["caught_by_quick_checks"] = caught
     m["first_round"] = first
     if strengthening:
